@@ -239,7 +239,32 @@ class Gen:
         return self.agg(0, top=True)
 
 
+def est_size(t):
+    """rough size in bytes (padding ignored): only used to bias the generator"""
+    k = t[0]
+    if k == 'b':
+        return KSIZE[t[1]]
+    if k == 'p':
+        return 8
+    if k == 'e':
+        return 4 if t[1] in ('int', 'uint') else 8
+    if k == 'a':
+        return t[1] * est_size(t[2])
+    if k == 'x':
+        return 0
+    sizes = [(est_size(m[1]) if m[0] in 'no' else (m[1] + 7) // 8) for m in t[1]]
+    return max(sizes + [0]) if k == 'u' else sum(sizes)
+
+
 def small_decl(rng, passing=True):
+    """mostly aggregates of at most 16 bytes (they travel in registers), about a third larger ones"""
+    while True:
+        t = small_decl0(rng)
+        if est_size(t) <= 16 or rng.random() < 0.22:
+            return t
+
+
+def small_decl0(rng, passing=True):
     """aggregates aimed at the classification boundaries: <= 16 bytes mostly, sometimes 17..40"""
     r = rng
     g = Gen(rng, flex=False, max_depth=2)
